@@ -128,7 +128,7 @@ func runProgram(ki int, a, b int, bound, maxExec int) result {
 	pr := []int{a, b}
 	if c01Want != "" {
 		for t, o := range pr {
-			if strings.Contains(ops[o].name, "Verify") && solo[t] != c01Want {
+			if strings.Contains(ops[o].name, "Verify") && !strings.Contains(ops[o].name, "Verify-false") && solo[t] != c01Want {
 				res.Violations = append(res.Violations, viol{keyPrefix + ":verdicts-wrong-when-run-alone", ops[o].name + " run alone gives " + solo[t] + ", want " + c01Want, desc, ki, pr, nil, nil})
 				return res
 			}
@@ -166,7 +166,7 @@ func runProgram(ki int, a, b int, bound, maxExec int) result {
 		for t := 0; t < 2; t++ {
 			if outs[t] != solo[t] {
 				add(keyPrefix+":result-differs-from-solo:"+strings.Fields(kk.name)[0],
-					fmt.Sprintf("%s on a private key whose public key was being computed for the first time by another goroutine returned a different result than when run alone", ops[pr[t]].name),
+					fmt.Sprintf("%s %s returned a different result than when run alone", ops[pr[t]].name, situation),
 					"concurrent: "+short(outs[t]), "alone:      "+short(solo[t]))
 			}
 		}
@@ -190,6 +190,7 @@ var (
 	// C12S_MODE=c01: the same explorer serves C01 ("Verify accepts exactly sk*H(m)") for public keys
 	// obtained from a private key whose cache is being filled concurrently
 	property  = "C12"
+	situation = "on a private key whose public key was being computed for the first time by another goroutine"
 	keyPrefix = "publickey-first-use"
 )
 
@@ -247,6 +248,47 @@ func c01Mode() {
 
 var c01Want string
 
+// c16Mode: proofs of possession of TWO different keys generated / verified at the same time (whatever
+// package-level state the PoP path keeps - the shared PoP hasher, scratch buffers - is shared between
+// them): BLSGeneratePOP(sk) is sk's signature over its own key bytes and BLSVerifyPOP(pk, that) is true,
+// under every schedule. The thread's private key is the shared cold object of the other modes (key A);
+// key B is a second, warm key pair.
+func c16Mode() {
+	property, keyPrefix = "C16", "pop-under-concurrent-pop-calls"
+	situation = "while another goroutine was generating / verifying a proof of possession"
+	skB := must(crypto.GeneratePrivateKey(crypto.BLSBLS12381, seed(91, 32)))
+	pkB := must(crypto.DecodePublicKey(crypto.BLSBLS12381, skB.PublicKey().Encode()))
+	popB := must(crypto.BLSGeneratePOP(skB))
+	popOf := map[string][]byte{}
+	pkOf := map[string]crypto.PublicKey{}
+	for _, kk := range kinds[:3] {
+		sk := kk.mk()
+		k := fmt.Sprintf("%x", sk.Encode())
+		popOf[k] = must(crypto.BLSGeneratePOP(kk.mk()))
+		pkOf[k] = must(crypto.DecodePublicKey(crypto.BLSBLS12381, sk.PublicKey().Encode()))
+	}
+	vs := func(ok bool, err error) string { return fmt.Sprintf("%v,%v", ok, err) }
+	ops = []opDef{
+		{"BLSGeneratePOP(skA)", true, func(sk crypto.PrivateKey) string {
+			s, err := crypto.BLSGeneratePOP(sk)
+			return fmt.Sprintf("%x,%v", []byte(s), err)
+		}},
+		{"BLSVerifyPOP(pkA,popA) Verify", true, func(sk crypto.PrivateKey) string {
+			k := fmt.Sprintf("%x", sk.Encode())
+			return vs(crypto.BLSVerifyPOP(pkOf[k], popOf[k]))
+		}},
+		{"BLSGeneratePOP(skB)", true, func(sk crypto.PrivateKey) string {
+			s, err := crypto.BLSGeneratePOP(skB)
+			return fmt.Sprintf("%x,%v", []byte(s), err)
+		}},
+		{"BLSVerifyPOP(pkB,popB) Verify", true, func(sk crypto.PrivateKey) string { return vs(crypto.BLSVerifyPOP(pkB, popB)) }},
+		{"BLSVerifyPOP(pkB,popA) Verify-false", true, func(sk crypto.PrivateKey) string {
+			return vs(crypto.BLSVerifyPOP(pkB, popOf[fmt.Sprintf("%x", sk.Encode())]))
+		}},
+	}
+	c01Want = "true,<nil>"
+}
+
 func main() {
 	thorough := len(os.Args) > 1 && os.Args[1] == "thorough"
 	vsched.Filter = func(loc string) bool { return !strings.HasPrefix(loc, "bls_thresholdsign.go:") && !strings.HasPrefix(loc, "hash/") }
@@ -258,6 +300,9 @@ func main() {
 	defer w.Flush()
 	if os.Getenv("C12S_MODE") == "c01" {
 		c01Mode()
+	}
+	if os.Getenv("C12S_MODE") == "c16" {
+		c16Mode()
 	}
 	if len(os.Args) > 2 && os.Args[1] == "--replay" {
 		var v viol
